@@ -299,7 +299,7 @@ func newC01Rig(seed int64, cfg c01Cfg) (*Rig, *FakePeer, *FakePeer, error) {
 		key = bytes.Repeat([]byte{7}, 16)
 	}
 	rig, err := NewRig(RigOpts{Seed: seed, Label: cfg.Label, Key: key, Compress: cfg.Compress, Spec: NodeSpec{Name: "V", IP: "10.9.9.9", Mutate: func(cf *memberlist.Config) {
-		cf.ProbeInterval = time.Hour // no probing inside the horizon; suspicion timers stay pending
+		cf.ProbeInterval = noProbe // no probing inside the horizon; suspicion timers stay pending
 		cf.PushPullInterval = 0
 		cf.DeadNodeReclaimTime = cfg.Reclaim
 		cf.GossipToTheDeadTime = 2 * time.Second
@@ -406,9 +406,131 @@ func genClaim(rng *rand.Rand, names []string, reclaim time.Duration) claim {
 	return c
 }
 
+
+// ---- batches: several claims about one subject delivered at the same instant ----
+
+type absRec struct {
+	present bool
+	inc     uint32
+	rank    int    // 0 alive 1 suspect 2 dead/left
+	left    bool   // rank 2: left vs dead
+	addr    string // A1/A2
+	meta    string
+}
+
+func absOf(r *memberlist.VerifRecord) absRec {
+	if r == nil || isPlaceholder(r) {
+		return absRec{}
+	}
+	a := absRec{present: true, inc: r.Incarnation, rank: rankState(r.State), left: r.State == memberlist.StateLeft, meta: string(r.Meta)}
+	for n, b := range c01Addrs {
+		if bytes.Equal(b, r.Addr) {
+			a.addr = n
+		}
+	}
+	return a
+}
+
+// applyAbs returns the states a single claim may lead to from s (always including "ignored").
+func applyAbs(s absRec, c claim, reclaimable bool) []absRec {
+	out := []absRec{s}
+	kind := c.effKind()
+	if !s.present {
+		if kind == ckAlive && c.Vsn != "bad" {
+			out = append(out, absRec{present: true, inc: c.Inc, rank: 0, addr: c.Addr, meta: c.Meta})
+		}
+		return out
+	}
+	if kind == ckAlive && c.Addr != s.addr {
+		// address change: only a left / reclaimable dead name may be taken over
+		if s.rank == 2 && (s.left || reclaimable) && c.Vsn != "bad" {
+			out = append(out, absRec{present: true, inc: c.Inc, rank: 0, addr: c.Addr, meta: c.Meta})
+		}
+		return out
+	}
+	stale := c.Inc < s.inc || (c.Inc == s.inc && rankOf(kind) <= s.rank)
+	if stale {
+		return out
+	}
+	n := s
+	n.inc = c.Inc
+	switch kind {
+	case ckAlive:
+		if c.Vsn == "bad" {
+			return out
+		}
+		n.rank, n.left, n.meta, n.addr = 0, false, c.Meta, c.Addr
+	case ckSuspect:
+		if s.rank != 0 {
+			return out // a suspicion only ever applies to an alive record
+		}
+		n.rank = 1
+	case ckDead:
+		n.rank, n.left = 2, false
+	case ckLeft:
+		n.rank, n.left = 2, true
+	}
+	return append(out, n)
+}
+
+func reachableAbs(start absRec, batch []claim, reclaimable bool) map[absRec]bool {
+	cur := map[absRec]bool{start: true}
+	// any order: iterate subsets by repeated relaxation (each claim used at most once per path)
+	type st struct {
+		r    absRec
+		used int
+	}
+	seen := map[st]bool{{start, 0}: true}
+	todo := []st{{start, 0}}
+	for len(todo) > 0 {
+		x := todo[len(todo)-1]
+		todo = todo[:len(todo)-1]
+		for i, c := range batch {
+			if x.used&(1<<i) != 0 {
+				continue
+			}
+			for _, n := range applyAbs(x.r, c, reclaimable) {
+				y := st{n, x.used | 1<<i}
+				if !seen[y] {
+					seen[y] = true
+					cur[n] = true
+					todo = append(todo, y)
+				}
+			}
+		}
+	}
+	return cur
+}
+
+func c01Batch(run *Run, rig *Rig, x *FakePeer, batch []claim, reclaim time.Duration) *c01Result {
+	node := batch[0].Node
+	before := rig.Snap()
+	now := time.Now()
+	rb := before.Rec(node)
+	reclaimable := rb != nil && rb.State == memberlist.StateDead && reclaim > 0 && now.Sub(rb.StateChange) > reclaim
+	for i := range batch {
+		batch[i].Carrier = "packet" // same instant, same path: the order is the node's choice
+		if err := rig.deliver(batch[i], x); err != nil {
+			return &c01Result{"C01/harness/deliver", err.Error()}
+		}
+	}
+	Settle(50 * time.Microsecond)
+	after := rig.Snap()
+	start, end := absOf(rb), absOf(after.Rec(node))
+	run.Eval(1)
+	run.Cell("batch", fmt.Sprintf("size=%d", len(batch)), fmt.Sprintf("prior-rank=%d", start.rank))
+	if !reachableAbs(start, batch, reclaimable)[end] {
+		return &c01Result{"C01/batch/unreachable-state", fmt.Sprintf("after a batch of %d same-instant claims the record is %+v, which no delivery order of the batch can produce from %+v under the precedence rules; batch %+v", len(batch), end, start, batch)}
+	}
+	// (monotonicity is part of every single step of the reachability relation: a batch may pass
+	// through 'left', after which a lower incarnation from another address is the permitted reclaim)
+	rig.C.CheckQuiescent()
+	return nil
+}
+
 func TestC01(t *testing.T) {
 	run := NewRun(t, "C01", "exploration",
-		"One real node per case in a virtual-time bubble; fake peers deliver alive/suspect/dead/leave claims about 2-3 third-party names (incarnations {0..4, 2^32-2}, two addresses, two metas, valid/invalid/short version vectors, four senders) through five carriers (packet, compound, compressed, push/pull entry non-join and join). After each claim the record, Members(), event count and the per-subject broadcast queue are compared with a precedence predicate written from the statement: stale => nothing changes and nothing new is queued; equal => nothing changes (only a first-time suspicion confirmation may be re-gossiped); any claim => the record is unchanged or exactly what the claim describes and never moves backwards, except an address change reclaiming a left or long-dead name. Plus an explicit cross product prior-state x incarnation relation x claim kind x address x carrier. A cell is (prior state, inc relation, kind, address relation, carrier).")
+		"One real node per case in a virtual-time bubble; fake peers deliver alive/suspect/dead/leave claims about 2-3 third-party names (incarnations {0..4, 2^32-2}, two addresses, two metas, valid/invalid/short version vectors, four senders) through five carriers (packet, compound, compressed, push/pull entry non-join and join). After each claim the record, Members(), event count and the per-subject broadcast queue are compared with a precedence predicate written from the statement: stale => nothing changes and nothing new is queued; equal => nothing changes (only a first-time suspicion confirmation may be re-gossiped); any claim => the record is unchanged or exactly what the claim describes and never moves backwards, except an address change reclaiming a left or long-dead name. Every fifth step is a batch of 2-4 claims about one subject delivered at the same instant (the node's LIFO/alive-first handoff queue picks the order): the resulting record must be reachable from the prior one by some order of 'applied or ignored' steps under the same rules. Plus an explicit cross product prior-state x incarnation relation x claim kind x address x carrier. A cell is (prior state, inc relation, kind, address relation, carrier).")
 	defer run.Finish()
 	run.Assume("incarnation-0 alive about an unknown name leaves an invisible placeholder (treated as absent)", "push/pull entries in state dead count as suspicions (hearsay rule)", "probing disabled (ProbeInterval 1h) so suspicion timers do not expire inside a sequence")
 
@@ -579,7 +701,25 @@ func TestC01(t *testing.T) {
 			}
 			defer rig.Close()
 			conf := map[string]map[string]bool{}
-			for _, c := range seq {
+			for si, c := range seq {
+				if si%5 == 4 {
+					// a batch about this claim's subject, delivered without waiting in between
+					nb := 2 + rng.Intn(3)
+					batch := []claim{c}
+					for len(batch) < nb {
+						b := genClaim(rng, []string{c.Node}, cfg.Reclaim)
+						b.Vsn = []string{"ok", "ok", "bad"}[rng.Intn(3)]
+						batch = append(batch, b)
+					}
+					batch[0].Vsn = "ok"
+					if r := c01Batch(run, rig, x, batch, cfg.Reclaim); r != nil {
+						results = append(results, r)
+						break
+					}
+					delete(conf, c.Node) // confirmations inside the batch were not tracked
+					done++
+					continue
+				}
 				if r := c01Step(run, rig, x, c, cfg.Reclaim, conf); r != nil {
 					results = append(results, r)
 					break
